@@ -46,7 +46,7 @@ def slice_of(op):
 
 def ramp_vals(op, unit):
     """operand values in ps"""
-    if op[1] in ('t', 'u', 'self', 'selfview'):
+    if op[1] in ('t', 'u', 'ut', 'self', 'selfview'):
         return list(op[2])
     return [v * FACTOR[unit] for v in op[2]]
 
@@ -107,6 +107,8 @@ def tok_op(op):
         kk = k if k != 'nu' else ('sr' if op[3] == 'sub' else 'ar')
         if op[1] in ('self', 'selfview'):
             return kk + ':self'
+        if op[1] == 'ut':   # an operand of TYPE UniformTime: the interval it claims, then its samples (ps)
+            return '%s:u:%d:%s' % (kk, op[4]['claimed'], ','.join(str(v) for v in op[2]) if op[2] else '-')
         return '%s:%s:%s' % (kk, 't' if op[1] in ('t', 'u') else 'i', ','.join(str(v) for v in op[2]) if op[2] else '-')
     if k in ('mu', 'dv'):
         return '%s:%d' % (k, op[1])
@@ -129,13 +131,201 @@ def mk_time(ps, unit, scalar):
     return t
 
 
+INT_FORMS = {'a64': np.int64, 'a32': np.int32, 'a16': np.int16, 'u8': np.uint8, 'u64': np.uint64, 'be8': '>i8', 'be2': '>i2'}
+SCALAR_FORMS = {'n': np.int64, 'n32': np.int32, 'n16': np.int16, 'nu8': np.uint8}
+
+
+def fits_form(form, vals):
+    """can these whole numbers be held exactly by the dtype of this operand form?"""
+    lo, hi = {'a32': (-2**31, 2**31 - 1), 'a16': (-2**15, 2**15 - 1), 'be2': (-2**15, 2**15 - 1), 'u8': (0, 255), 'u64': (0, 2**62),
+              'n32': (-2**31, 2**31 - 1), 'n16': (-2**15, 2**15 - 1), 'nu8': (0, 255), 'a0_16': (-2**15, 2**15 - 1)}.get(form, (-2**62, 2**62))
+    return all(lo <= v <= hi for v in vals)
+
+
+def mk_scalar(form, v):
+    """a whole number as python int / numpy scalar of a narrow type / 0-d array (L1 operand kinds)"""
+    if form in SCALAR_FORMS:
+        return SCALAR_FORMS[form](v)
+    if form == 'a0':
+        return np.array(v, dtype=np.int64)
+    if form == 'a0_16':
+        return np.array(v, dtype=np.int16)
+    if form == 'a0be':
+        return np.array(v, dtype='>i8')
+    if form == 'a1':
+        return np.array([v], dtype=np.int64)
+    return int(v)
+
+
+class OperandMismatch(Exception):
+    pass
+
+
+def donor_axis(rec):
+    t0, dt, m, u = rec['donor']
+    f = FACTOR[u]
+    return ts().UniformTime(t0=t0 // f, sampling_interval=dt // f, length=m, time_unit=u)
+
+
+def donor_samples(rec):
+    t0, dt, m, u = rec['donor']
+    return [t0 + i * dt for i in range(m)]
+
+
+def route_expected(rec):
+    """what the samples of `route(donor)` are, in ps, computed from the recipe alone (python ints)"""
+    d = donor_samples(rec)
+    r = rec['route']
+    if r in ('fancy', 'take', 'write-fancy'):
+        return [d[i] for i in rec['idx']]
+    if r in ('bool', 'compress'):
+        return [x for x, m in zip(d, rec['mask']) if m]
+    if r in ('flip', 'tuple-slice', 'slice-rev'):
+        return d[::-1]
+    if r == 'slice':
+        return d[slice(*rec['sl'])]
+    if r in ('cumsum', 'm-cumsum'):
+        out, acc = [], 0
+        for x in d:
+            acc += x
+            out.append(acc)
+        return out
+    if r in ('repeat', 'm-repeat'):
+        return [x for x in d for _ in range(rec['k'])][:rec['n']]
+    if r == 'tile':
+        return (d * rec['k'])[:rec['n']]
+    if r == 'npadd':
+        return [x + rec['k'] for x in d]
+    if r in ('npmul', 'scalar-left-mul'):
+        return [x * rec['k'] for x in d]
+    if r == 'scalar-left-sub':
+        return [rec['k'] - x for x in d]
+    if r == 'npneg':
+        return [-x for x in d]
+    if r == 'floordiv':
+        return [x // rec['k'] for x in d]
+    if r == 'mod':
+        return [x % rec['k'] for x in d]
+    if r in ('abs', 'npabs'):
+        return [abs(x) for x in d]
+    if r == 'clip':
+        return [min(max(x, rec['lo']), rec['hi']) for x in d]
+    if r == 'maximum':
+        return [max(x, rec['lo']) for x in d]
+    if r == 'delete':
+        return [x for i, x in enumerate(d) if i != rec['k']]
+    if r == 'diff':
+        return [b - a for a, b in zip(d, d[1:])]
+    if r == 'write':
+        return list(rec['vals'])
+    if r == 'ctor':
+        return d
+    raise ValueError(r)
+
+
+def route_apply(rec, u):
+    """the object the tree hands out for `route(donor)`; whether it is typed UniformTime is the tree's business"""
+    r = rec['route']
+    if r == 'fancy':
+        return u[list(rec['idx'])]
+    if r == 'take':
+        return u.take(list(rec['idx']))
+    if r == 'bool':
+        return u[np.array(rec['mask'], dtype=bool)]
+    if r == 'compress':
+        return u.compress(np.array(rec['mask'], dtype=bool))
+    if r == 'flip':
+        return np.flip(u)
+    if r == 'tuple-slice':
+        return u[(slice(None, None, -1),)]
+    if r == 'slice-rev':
+        return u[::-1]
+    if r == 'slice':
+        return u[slice(*rec['sl'])]
+    if r == 'cumsum':
+        return np.cumsum(u)
+    if r == 'm-cumsum':
+        return u.cumsum()
+    if r == 'repeat':
+        return np.repeat(u, rec['k'])[:rec['n']]
+    if r == 'm-repeat':
+        return u.repeat(rec['k'])[:rec['n']]
+    if r == 'tile':
+        return np.tile(u, rec['k'])[:rec['n']]
+    if r == 'npadd':
+        return np.add(u, rec['k'])
+    if r == 'npmul':
+        return np.multiply(u, rec['k'])
+    if r == 'scalar-left-mul':
+        return np.int64(rec['k']) * u
+    if r == 'scalar-left-sub':
+        return np.int64(rec['k']) - u
+    if r == 'npneg':
+        return np.negative(u)
+    if r == 'floordiv':
+        return u // rec['k']
+    if r == 'mod':
+        return u % rec['k']
+    if r == 'abs':
+        return abs(u)
+    if r == 'npabs':
+        return np.abs(u)
+    if r == 'clip':
+        return u.clip(rec['lo'], rec['hi'])
+    if r == 'maximum':
+        return np.maximum(u, rec['lo'])
+    if r == 'delete':
+        return np.delete(u, rec['k'])
+    if r == 'diff':
+        return np.diff(u)
+    if r in ('write', 'write-fancy'):
+        # the type and the attributes of the donor, other samples: written through an ndarray view of the buffer
+        # (always possible, whatever __getitem__ / __array_wrap__ do)
+        w = u[:len(rec['vals'])] if r == 'write' else u[:len(rec['idx'])]
+        np.asarray(w)[:] = np.array(route_expected(rec), dtype=np.int64)
+        return w
+    if r == 'ctor':
+        return u
+    raise ValueError(r)
+
+
+def mk_typed(rec):
+    """the operand of a `ut` op, checked to hold the samples the recipe says"""
+    import warnings
+    with warnings.catch_warnings():
+        warnings.simplefilter('ignore')
+        obj = route_apply(rec, donor_axis(rec))
+    got = [int(v) for v in np.asarray(obj).reshape(-1)]
+    if got != route_expected(rec) or np.asarray(obj).dtype.kind not in 'iu':
+        raise OperandMismatch('%s: operand holds %s, recipe says %s' % (rec['route'], got[:8], route_expected(rec)[:8]))
+    return obj
+
+
 def mk_operand(op, unit, ax=None):
     k = op[0]
     if k in ('as', 'ss'):
         if op[1] == 't':
             return mk_time(op[2], op[3], True)
-        return np.int64(op[2]) if op[1] == 'n' else int(op[2])
+        return mk_scalar(op[1], op[2])
     form, vals = op[1], op[2]
+    if form == 'ut':
+        return mk_typed(op[4])
+    if form in INT_FORMS and form != 'a32':
+        return np.array(vals, dtype=INT_FORMS[form])
+    if form == 'ro':
+        a = np.array(vals, dtype=np.int64)
+        a.setflags(write=False)
+        return a
+    if form == 'str':      # a strided view: every second element of a buffer holding other numbers in between
+        base = np.full(2 * len(vals), 977, dtype=np.int64)
+        base[::2] = vals
+        return base[::2]
+    if form == 'rstr':     # a view with a negative stride
+        return np.array(list(vals)[::-1], dtype=np.int64)[::-1]
+    if form == 'tup':
+        return tuple(vals)
+    if form == 'tl':       # a list of 0-d time objects (ps; generated for ps axes only, where a bare number is a ps too)
+        return [ts().TimeArray(np.int64(v), time_unit='ps') for v in vals]
     if form == 'self':
         return ax
     if form == 'selfview':
@@ -160,9 +350,9 @@ def apply_op(ax, op):
         elif k in ('ss', 'sr', 'nu'):
             ax = operator.isub(ax, mk_operand(op, ax.time_unit, ax))
         elif k == 'mu':
-            ax = operator.imul(ax, op[1])
+            ax = operator.imul(ax, mk_scalar(op[2] if len(op) > 2 else 'i', op[1]))
         elif k == 'dv':
-            ax = operator.itruediv(ax, op[1])
+            ax = operator.itruediv(ax, mk_scalar(op[2] if len(op) > 2 else 'i', op[1]))
         elif k == 'sl':
             return ax[slice_of(op)], 'ok', ax      # the parent stays observed: the slice must not write through to it
         elif k == 'cp':
@@ -175,6 +365,8 @@ def apply_op(ax, op):
             else:
                 ax[op[2]:] = op[3]
         return ax, 'ok', None
+    except OperandMismatch:
+        return ax, 'OperandMismatch', None
     except Exception as e:  # noqa
         return ax, err_kind(e), None
 
@@ -255,11 +447,143 @@ def gen_init(rng, n=None, big=False):
     return (unit, t0, dt, n)
 
 
+NEAR_SLOPES = [10**6, 10**9 + 7, 10**12 // 7, 2**53 + 1, -(10**6) - 3, 123456789012]
+
+
+def near_uniform(rng, n, slope=None, where=None, eps=None):
+    """n >= 3 whole picoseconds: an exact ramp with ONE element moved by eps (±1, ±3 ps) at the start / in the
+    middle / at the end, or a ramp computed in floating point (i/7 s) and rounded — never exactly uniform"""
+    if slope is None:
+        slope = rng.choice(NEAR_SLOPES)
+    if rng.random() < 0.15 and where is None:
+        vals = [int(round(i * 1e12 / 7)) for i in range(n)]
+        if len({b - a for a, b in zip(vals, vals[1:])}) > 1:
+            return vals
+    a0 = rng.choice([5, 0, -7, 10**9])
+    vals = [a0 + i * slope for i in range(n)]
+    j = where if where is not None else rng.choice([0, n // 2, n - 1, rng.randrange(n)])
+    vals[j] += eps if eps is not None else rng.choice([1, -1, 1, -1, 3])
+    return vals
+
+
+TYPED_NONUNIFORM = ['fancy', 'bool', 'take', 'compress', 'cumsum', 'm-cumsum', 'repeat', 'm-repeat', 'write', 'write-fancy', 'abs',
+                    'mod', 'tile']
+TYPED_UNIFORM = ['ctor', 'slice', 'slice-rev', 'flip', 'tuple-slice', 'npadd', 'npmul', 'npneg', 'scalar-left-sub']
+
+
+def typed_recipe(rng, n, unit, uniform, near=None):
+    """a recipe for an operand of n samples that is (on today's tree, or by a write through an ndarray view on
+    any tree) of TYPE UniformTime; uniform=False: its samples are NOT uniform although its attributes say so"""
+    f = FACTOR[unit]
+    t0, dt = rng.choice([0, 1, -4, 3]) * f, rng.choice([1, 2, 3]) * f
+    if near is not None:     # almost uniform samples under an honest-looking type
+        return {'route': 'write', 'donor': [near[0], max(near[1] - near[0], 1), n, 'ps'], 'vals': list(near),
+                'claimed': max(near[1] - near[0], 1)}
+    for _ in range(40):
+        r = rng.choice(TYPED_UNIFORM if uniform else TYPED_NONUNIFORM)
+        rec = {'route': r, 'donor': [t0, dt, n, unit], 'claimed': dt}
+        if r in ('fancy', 'take', 'write-fancy'):
+            m = n + rng.randint(1, 3)
+            rec['donor'][2] = m
+            idx = sorted(rng.sample(range(m), n)) if rng.random() < 0.7 else [rng.randrange(m) for _ in range(n)]
+            rec['idx'] = idx
+        elif r in ('bool', 'compress'):
+            m = n + rng.randint(1, 3)
+            keep = set(rng.sample(range(m), n))
+            rec['donor'][2] = m
+            rec['mask'] = [1 if i in keep else 0 for i in range(m)]
+        elif r in ('repeat', 'm-repeat', 'tile'):
+            rec['k'], rec['n'] = 2, n
+        elif r == 'slice':
+            rec['donor'][2] = 2 * n + 1
+            rec['sl'] = [1, 2 * n + 1, 2]
+        elif r in ('npadd', 'scalar-left-sub'):
+            rec['k'] = rng.choice([5, -3, 1]) * (f if r == 'npadd' else 1)
+        elif r == 'npmul':
+            rec['k'] = rng.choice([2, -1, 3])
+        elif r == 'mod':
+            rec['k'] = 3 * f
+        elif r == 'abs':
+            rec['donor'][0] = -2 * dt if n >= 4 else -dt
+        elif r == 'write':
+            vals = [t0 + i * dt for i in range(n)]
+            j = rng.randrange(1, n) if n > 1 else 0
+            vals[j] += rng.choice([1, -1, f])
+            rec['vals'] = vals
+        vals = route_expected(rec)
+        dv = {b - c for c, b in zip(vals, vals[1:])}
+        if len(vals) == n and (len(dv) <= 1) == bool(uniform) and all(abs(v) < LIM // 64 for v in vals):
+            return rec
+    return None
+
+
+def scale_form(rng, k):
+    form = rng.choice(['i', 'i', 'i', 'n', 'n16', 'nu8', 'n32', 'a0', 'a0_16', 'a1', 'a0be'])
+    return form if fits_form(form, [k]) else 'i'
+
+
 def concretise(rng, kind, a):
     """an operation of this kind that is meaningful for the abstract state `a`"""
     t0, dt, n, unit = a
     f = FACTOR[unit]
     room = abs(t0) + (n + 2) * abs(dt) < LIM // 64
+    if kind in ('as', 'ss') and rng.random() < 0.25 and room:
+        # L1: numpy scalars of narrow types, 0-d arrays (bare whole numbers in the unit of the axis)
+        v = rng.randint(-9, 9)
+        form = rng.choice(['n16', 'n32', 'nu8', 'a0', 'a0_16', 'a0be'])
+        return (kind, form if fits_form(form, [v]) else 'a0', v)
+    if kind in ('ar', 'sr') and rng.random() < 0.3 and room and n >= 2:
+        # L1 layouts / dtypes of a bare uniform ramp; L5 operands of TYPE UniformTime that ARE uniform
+        sgn = 1 if kind == 'ar' else -1
+        if rng.random() < 0.35:
+            rec = typed_recipe(rng, n, unit, True)
+            if rec is not None:
+                vals = route_expected(rec)
+                if dt + sgn * (vals[1] - vals[0]) != 0:
+                    return (kind, 'ut', vals, None, rec)
+        st = rng.choice([1, 2, 3, -1])
+        if dt + sgn * st * f == 0:
+            st += 1 if st > 0 else -1
+            if dt + sgn * st * f == 0:
+                st = 7
+        a0 = rng.choice([0, 1, 4, -2])
+        vals = [a0 + i * st for i in range(n)]
+        form = rng.choice(['a16', 'u8', 'u64', 'be8', 'be2', 'ro', 'str', 'rstr', 'tup'] + (['tl'] if unit == 'ps' else []))
+        return (kind, form if fits_form(form, vals) else 'ro', vals, None)
+    if kind == 'nu' and rng.random() < 0.55 and room and n >= 3:
+        which = rng.choice(['add', 'sub'])
+        c = rng.random()
+        if c < 0.45:
+            # L4: ALMOST uniform (one element off by a picosecond, float-rounded ramps), as a time array, as bare
+            # picoseconds, as an object of type UniformTime
+            vals = near_uniform(rng, n)
+            form = rng.choice(['t', 't', 'ut'] + (['a64', 'ro', 'be8'] if unit == 'ps' else []))
+            if form == 'ut':
+                return ('nu', 'ut', vals, which, typed_recipe(rng, n, unit, False, near=vals), 'near')
+            if form == 't':
+                return ('nu', 't', vals, which, 'ps', 'near')
+            return ('nu', form, vals, which, None, 'near')
+        if c < 0.85:
+            # L5: the operand is of TYPE UniformTime (indexing, numpy functions, a write through a view) but its
+            # samples are not uniform
+            rec = typed_recipe(rng, n, unit, False)
+            if rec is not None:
+                return ('nu', 'ut', route_expected(rec), which, rec)
+        # L1: a grossly non-uniform bare operand in another dtype / layout
+        vals = list(range(n))
+        vals[rng.randrange(1, n)] += rng.choice([1, 2])
+        if len({b - c2 for c2, b in zip(vals, vals[1:])}) > 1:
+            form = rng.choice(['a16', 'u8', 'be8', 'ro', 'str', 'tup'])
+            return ('nu', form, vals, which)
+    if kind == 'mu' and room and rng.random() < 0.35:
+        k = rng.choice([2, 3, 1, 5, -1, 0, -2, 1, -1])
+        return ('mu', k, scale_form(rng, k))
+    if kind == 'dv' and rng.random() < 0.4:
+        # L4: divisors that leave remainder 1 (or -1) on t0 or on the interval, ±1, and exact ones, in every factor form
+        cand = [q for q in (abs(dt) - 1, abs(dt) + 1, abs(t0) - 1, abs(t0) + 1, -(abs(dt) - 1), 1, -1, 2, -2, abs(dt), -abs(dt))
+                if q != 0 and abs(q) < 2**60]
+        q = rng.choice(cand)
+        return ('dv', q, scale_form(rng, q))
     if kind in ('as', 'ss'):
         form = rng.choice(['i', 'i', 'n', 't', 'ax'])
         if form == 'ax':   # derived from the axis itself: exactly ±Δ, ±t0, ±(n-1)Δ
@@ -395,6 +719,147 @@ def norm_outcomes(s):
     return _OUTCOME.sub(lambda m: m.group(1) + 'rejected|', s)
 
 
+def operand_sweep(rng, tier):
+    """depth-1/2 histories that put every operand family of `+=` / `-=` on axes of length 2..8 and on a long one:
+    almost-uniform operands (one element off by ±1 ps at the start / middle / end, every slope of NEAR_SLOPES,
+    float-rounded ramps), operands of TYPE UniformTime made by every route (uniform and not), every dtype / layout"""
+    out = []
+    reps = 1 if tier == 'quick' else 4
+    for _ in range(reps):
+        for n in (3, 4, 5, 8, 2, 64 if tier == 'quick' else 200):
+            unit = rng.choice(UNITS)
+            f = FACTOR[unit]
+            init = (unit, rng.choice([0, 3, -4]) * f, rng.choice([1, 2, 5]) * f, n)
+            a = (init[1], init[2], n, unit)
+            follow = lambda: [concretise(rng, rng.choice(['as', 'sl', 'cp', 'mu']), a)] if rng.random() < 0.5 else []
+            if n >= 3:
+                for where in (0, n // 2, n - 1):
+                    for eps in (1, -1):
+                        slope = rng.choice(NEAR_SLOPES)
+                        vals = near_uniform(rng, n, slope=slope, where=where, eps=eps)
+                        which = rng.choice(['add', 'sub'])
+                        form = rng.choice(['t', 'ut', 'a64'] if unit == 'ps' else ['t', 'ut'])
+                        if form == 'ut':
+                            op = ('nu', 'ut', vals, which, typed_recipe(rng, n, unit, False, near=vals), 'near')
+                        elif form == 't':
+                            op = ('nu', 't', vals, which, 'ps', 'near')
+                        else:
+                            op = ('nu', 'a64', vals, which, None, 'near')
+                        out.append(make_case(init, [op] + follow()))
+                vals = [int(round(i * 1e12 / 7)) for i in range(n)]
+                if len({b - c for c, b in zip(vals, vals[1:])}) > 1:
+                    out.append(make_case(init, [('nu', 't', vals, 'add', 'ps', 'near')]))
+                for r in TYPED_NONUNIFORM:
+                    for _k in range(8):
+                        rec = typed_recipe(rng, n, unit, False)
+                        if rec is not None and rec['route'] == r:
+                            out.append(make_case(init, [('nu', 'ut', route_expected(rec), rng.choice(['add', 'sub']), rec)] + follow()))
+                            break
+            for r in TYPED_UNIFORM:
+                for _k in range(8):
+                    rec = typed_recipe(rng, n, unit, True)
+                    if rec is not None and rec['route'] == r:
+                        vals = route_expected(rec)
+                        kind = rng.choice(['ar', 'sr'])
+                        if n >= 2 and init[2] + (1 if kind == 'ar' else -1) * (vals[1] - vals[0]) == 0:
+                            continue
+                        out.append(make_case(init, [(kind, 'ut', vals, None, rec)] + follow()))
+                        break
+            for form in ('a16', 'u8', 'u64', 'be8', 'be2', 'ro', 'str', 'rstr', 'tup', 'tl'):
+                if form == 'tl' and unit != 'ps':
+                    continue
+                vals = [1 + 2 * i for i in range(n)]
+                if not fits_form(form, vals + [vals[-1] + 1]):
+                    vals = [1 + (i % 2) * 0 + i for i in range(n)] if fits_form(form, [n + 1]) else vals
+                    if not fits_form(form, vals + [vals[-1] + 1]):
+                        continue
+                out.append(make_case(init, [(rng.choice(['ar', 'sr']), form, vals, None)] + follow()))
+                if n >= 3:
+                    bad = list(vals)
+                    bad[rng.randrange(1, n)] += 1
+                    if len({b - c for c, b in zip(bad, bad[1:])}) > 1:
+                        out.append(make_case(init, [('nu', form, bad, rng.choice(['add', 'sub']))]))
+            for form in ('n16', 'n32', 'nu8', 'a0', 'a0_16', 'a0be'):
+                out.append(make_case(init, [(rng.choice(['as', 'ss']), form, rng.randint(0, 9))] + follow()))
+            for form in ('n', 'n16', 'nu8', 'n32', 'a0', 'a0_16', 'a1', 'a0be'):
+                out.append(make_case(init, [('mu', rng.choice([2, 3, 1]), form)] + follow()))
+                g = rng.choice([1, 2, 5])
+                out.append(make_case((unit, init[1] * g, init[2] * g, n), [('dv', g, form)]))
+    return out
+
+
+def check_cases(rng, tier):
+    """the uniformity check itself (`_convert_and_check_uniformity`, one call) against the model's `checkOperand`:
+    what it hands back (values in ps, interval change) or that it refuses"""
+    out = []
+    for _ in range(80 if tier == 'quick' else 800):
+        unit = rng.choice(UNITS)
+        n = rng.choice([0, 1, 2, 2, 3, 4, 5, 8, 33])
+        c = rng.random()
+        if c < 0.3 and n >= 3:
+            vals, form = near_uniform(rng, n), rng.choice(['t', 'ut'])
+            rec = typed_recipe(rng, n, unit, False, near=vals) if form == 'ut' else None
+        elif c < 0.55 and n >= 3:
+            rec = typed_recipe(rng, n, unit, rng.random() < 0.4)
+            if rec is None:
+                continue
+            vals, form = route_expected(rec), 'ut'
+        elif c < 0.8:
+            st, a0 = rng.choice([1, 2, -3, 0]), rng.randint(-3, 3)
+            vals = [a0 + i * st for i in range(n)]
+            if n >= 3 and rng.random() < 0.4:
+                vals[rng.randrange(1, n)] += 1
+            form, rec = rng.choice(['a64', 'a16', 'l', 'be8', 'str', 'ro']), None
+            if not fits_form(form, vals):
+                form = 'a64'
+        else:
+            st, a0 = rng.choice([1, 2, -3]) * FACTOR[rng.choice(UNITS)], rng.randint(-3, 3) * 10**6
+            vals = [a0 + i * st for i in range(n)]
+            form, rec = 't', None
+        if form in ('t', 'ut') and n == 0:
+            continue
+        op = ('ar', form, vals, None, rec if form == 'ut' else 'ps')
+        out.append(make_check_case(unit, op))
+    return out
+
+
+def run_check(unit, op):
+    import warnings
+    with warnings.catch_warnings():
+        warnings.simplefilter('ignore')
+        ax = ts().UniformTime(t0=0, sampling_interval=1, length=max(len(op[2]), 1), time_unit=unit)
+        try:
+            operand = mk_operand(op, unit, ax)
+            val, d = ax._convert_and_check_uniformity(operand)
+            return 'ok %d %s' % (int(d), ','.join(str(int(v)) for v in np.asarray(val).reshape(-1)) or '-')
+        except OperandMismatch:
+            return 'operand-mismatch'
+        except Exception as e:  # noqa
+            return 'err ' + err_kind(e)
+
+
+def make_check_case(unit, op):
+    tok = tok_op(op).split(':', 1)[1]
+    return Case('C17 check %s %s' % (unit, tok), run_check(unit, op), 'check/' + ('typed' if op[1] == 'ut' else 'time' if op[1] == 't' else 'bare'),
+                cmp=lambda impl, model: impl.split(' ')[0:1] == ['err'] and model.startswith('err ') or impl == model.split(' ## ')[0],
+                meta={'check': {'unit': unit, 'op': list(op)}})
+
+
+def judge_check(spec):
+    unit, op = spec['unit'], tuple(spec['op'])
+    got = run_check(unit, op)
+    vals = ramp_vals(op, unit)
+    dv = [b - a for a, b in zip(vals, vals[1:])]
+    want = 'err' if not vals or (dv and any(x != dv[0] for x in dv)) else 'ok %d %s' % (dv[0] if dv else 0, ','.join(map(str, vals)))
+    if got == want or (want == 'err' and got.startswith('err ')):
+        return None
+    fam = 'typed' if op[1] == 'ut' else 'time' if op[1] == 't' else 'bare'
+    sym = ('operand-samples-wrong' if got == 'operand-mismatch' else 'accepts-nonuniform' if want == 'err' else
+           'refuses-uniform' if got.startswith('err') else 'wrong-values-or-step')
+    return ('check/%s/%s' % (fam, sym), '_convert_and_check_uniformity(%s operand %s, route %s) on a %s axis answers %s; its samples in ps are %s'
+            % (fam, op[1], (op[4] or {}).get('route') if op[1] == 'ut' else '-', unit, got[:200], vals[:12]))
+
+
 def cases(rng, tier, seed):
     out = []
     if tier == 'quick':
@@ -409,6 +874,8 @@ def cases(rng, tier, seed):
             init = gen_init(rng, n=[4, 1, 2, 8, 3][i] if i < 5 else None, big=(i == 4 or i % 6 == 5))
             for kinds in itertools.product(KINDS, repeat=depth):
                 out.append(build_case(rng, init, kinds))
+    out += operand_sweep(rng, tier)
+    out += check_cases(rng, tier)
     return out
 
 
@@ -486,6 +953,14 @@ def judge(init, ops, steps=None):
         name = KIND_NAME[op[0]]
         if op[0] in ('ar', 'sr', 'nu') and len(op[2]) != ab[i - 1][0][2] and len(op[2]) != 1:
             name += '-wrong-length'
+        elif op[0] == 'nu' and len(op) > 5 and op[5] == 'near':
+            name += '-near-uniform' + ('-typed' if op[1] == 'ut' else '')
+        elif op[0] == 'nu' and op[1] == 'ut':
+            name += '-typed'
+        elif op[0] in ('ar', 'sr') and op[1] == 'ut':
+            name += '-typed'
+        elif op[0] in ('mu', 'dv') and len(op) > 2 and op[2] != 'i' and not (op[0] == 'mu' and op[1] == 0) and acc:
+            name += '-numpy-factor'
         elif op[0] in ('ar', 'sr') and op[1] in ('self', 'selfview'):
             name += '-aliased'
         elif op[0] in ('ar', 'sr', 'nu') and len(op[2]) == 1:
@@ -502,8 +977,8 @@ def judge(init, ops, steps=None):
             name += '-interval-beyond-2^52'
         sym = []
         accepted = (oc == 'ok')
-        if False:
-            pass
+        if oc == 'OperandMismatch':
+            sym.append('operand-samples-wrong')
         elif acc and not accepted:
             sym.append('raises-' + oc)
         elif not acc and accepted:
@@ -613,11 +1088,175 @@ def slice_during_one(spec):
     return None
 
 
+DERIVED_ROUTES = ['fancy', 'take', 'bool', 'compress', 'flip', 'tuple-slice', 'slice-rev', 'cumsum', 'm-cumsum', 'repeat', 'm-repeat', 'tile',
+                  'npadd', 'npmul', 'scalar-left-mul', 'scalar-left-sub', 'npneg', 'floordiv', 'mod', 'abs', 'npabs', 'clip', 'maximum',
+                  'delete', 'diff']
+
+
+def derived_spec(rng, route):
+    unit = rng.choice(UNITS)
+    f = FACTOR[unit]
+    m = rng.randint(3, 8)
+    rec = {'route': route, 'donor': [rng.choice([0, 1, -4, 3, -9]) * f, rng.choice([1, 2, 3]) * f, m, unit]}
+    if route in ('fancy', 'take'):
+        k = rng.randint(2, m)
+        rec['idx'] = sorted(rng.sample(range(m), k)) if rng.random() < 0.6 else [rng.randrange(m) for _ in range(k)]
+    elif route in ('bool', 'compress'):
+        keep = set(rng.sample(range(m), rng.randint(2, m)))
+        rec['mask'] = [1 if i in keep else 0 for i in range(m)]
+    elif route in ('repeat', 'm-repeat', 'tile'):
+        rec['k'], rec['n'] = 2, 2 * m
+    elif route in ('npadd', 'scalar-left-sub'):
+        rec['k'] = rng.choice([5, -3, 1])
+    elif route in ('npmul', 'scalar-left-mul'):
+        rec['k'] = rng.choice([2, -1, 3])
+    elif route in ('floordiv', 'mod'):
+        rec['k'] = rng.choice([2, 3, 7])
+    elif route in ('clip', 'maximum'):
+        rec['lo'], rec['hi'] = rec['donor'][0] + rec['donor'][1], rec['donor'][0] + (m - 2) * rec['donor'][1]
+    elif route == 'delete':
+        rec['k'] = rng.randrange(m)
+    return rec
+
+
+def derived_one(rec, stats=None):
+    """an array made FROM a uniform axis by indexing or by a numpy function: the axis it was made from stays as it
+    was and the result holds the samples numpy's semantics say.  Whether such a result is still TYPED UniformTime
+    with attributes that do not describe it is only COUNTED (`stats`): fancy / boolean indexing, np.flip / cumsum /
+    repeat / …, ufuncs that are not in-place are not among the operations C17 quantifies over, so this is not a
+    failure of the property (lead decision, session 3; see notes/C17.md "false alarms corrected").  Such objects
+    are judged where the property does speak: as OPERANDS of += / -= (`ut` forms)"""
+    import warnings
+    route = rec['route']
+    with warnings.catch_warnings():
+        warnings.simplefilter('ignore')
+        u = donor_axis(rec)
+        before = obs_axis(u)
+        try:
+            obj = route_apply(rec, u)
+        except Exception as e:  # noqa  (a refusal is honest)
+            return None if obs_axis(u) == before else Failure('derived/%s/operand-changed' % route, 'the refused %s changed its operand' % route,
+                                                                {'key': 'derived/%s/operand-changed' % route, 'derived': rec})
+        want = route_expected(rec)
+        if obs_axis(u) != before:
+            key = 'derived/%s/operand-changed' % route
+            return Failure(key, '%s of the axis %s changed the axis: now %s' % (route, before, obs_axis(u)), {'key': key, 'derived': rec})
+        if not isinstance(obj, np.ndarray) or obj.ndim != 1:
+            return None
+        got = [int(v) for v in np.asarray(obj)] if np.asarray(obj).dtype.kind in 'iu' else None
+        if got is not None and got != want:
+            key = 'derived/%s/samples-wrong' % route
+            return Failure(key, '%s of the axis %s holds %s, expected %s' % (route, donor_samples(rec), got, want), {'key': key, 'derived': rec})
+        if isinstance(obj, ts().UniformTime):
+            # it claims to be a uniform axis: then it must be one, described by its own attributes
+            o = parse_axis(obs_axis(obj))
+            dv = {b - a for a, b in zip(want, want[1:])}
+            uniform = len(dv) <= 1 and len(want) >= 1
+            a = (want[0], dv.pop() if dv else (o['dt'] if o else 0), len(want), rec['donor'][3]) if uniform and want else None
+            sym = judge_axis(o, a) if a is not None else ['samples-not-uniform']
+            if stats is not None:
+                stats['typed'] = stats.get('typed', 0) + 1
+                if sym:
+                    stats['typed_not_described'] = stats.get('typed_not_described', 0) + 1
+                    stats.setdefault('routes_typed_not_described', set()).add(route)
+    return None
+
+
+def derived_experiment(rng, tier):
+    fails, n, stats = [], 0, {}
+    for route in DERIVED_ROUTES:
+        for _ in range(3 if tier == 'quick' else 30):
+            f = derived_one(derived_spec(rng, route), stats)
+            n += 1
+            if f:
+                fails.append(f)
+    stats['routes_typed_not_described'] = sorted(stats.get('routes_typed_not_described', []))
+    stats['n'] = n
+    return fails, stats
+
+
+def float_one(spec):
+    """operands that are whole numbers held as floats (2.0, a float64 / float32 ramp): numpy's casting rule refuses
+    them; whichever way it goes, a refusal leaves the axis as it was and an acceptance gives the exact result"""
+    import warnings
+    init, kind, vals, form = tuple(spec['init']), spec['kind'], spec['vals'], spec['form']
+    dt_ = {'f64': np.float64, 'f32': np.float32}.get(form[-3:], np.float64)
+    with warnings.catch_warnings():
+        warnings.simplefilter('ignore')
+        ax = mk_axis(init)
+        before = obs_axis(ax)
+        if kind in ('mu', 'dv', 'as', 'ss'):
+            operand = (float(vals[0]) if form == 'pyf' else dt_(vals[0]) if form.startswith('n') else np.array(vals[0], dtype=dt_))
+        else:
+            operand = np.array(vals, dtype=dt_) if form != 'lf' else [float(v) for v in vals]
+        try:
+            fn = {'as': operator.iadd, 'ar': operator.iadd, 'ss': operator.isub, 'sr': operator.isub, 'mu': operator.imul, 'dv': operator.itruediv}[kind]
+            ax = fn(ax, operand)
+            oc = 'ok'
+        except Exception as e:  # noqa
+            oc = err_kind(e)
+        if kind in ('mu', 'dv'):
+            intop = (kind, int(vals[0]))
+        elif kind in ('as', 'ss'):
+            intop = (kind, 'i', int(vals[0]))
+        else:
+            intop = (kind, 'a64', [int(v) for v in vals], None)
+        a0 = (init[1], init[2], init[3], init[0])
+        a1, acc = abs_step(a0, intop)
+        if oc != 'ok':
+            sym = [] if obs_axis(ax) == before else ['changed-on-reject']
+        elif not acc:
+            sym = ['accepted']
+        else:
+            sym = judge_axis(parse_axis(obs_axis(ax)), a1)
+    if sym:
+        key = 'float-operand/%s/%s' % (KIND_NAME[kind], '+'.join(sym))
+        return Failure(key, 'axis %s, %s with the float operand %s (%s): outcome %s, now %s; %s' % (init, kind, vals[:8], form, oc, obs_axis(ax)[:160], sym),
+                       {'key': key, 'float': spec})
+    return None
+
+
+def float_experiment(rng, tier):
+    fails, n = [], 0
+    for _ in range(60 if tier == 'quick' else 600):
+        init = gen_init(rng)
+        kind = rng.choice(['as', 'ss', 'ar', 'sr', 'mu', 'dv'])
+        m = init[3]
+        if kind in ('ar', 'sr'):
+            st = rng.choice([1, 2, -1])
+            vals = [rng.randint(-2, 2) + i * st for i in range(m)]
+            if m >= 3 and rng.random() < 0.4:
+                vals[rng.randrange(1, m)] += 1
+            form = rng.choice(['af64', 'af32', 'lf'])
+        else:
+            vals = [rng.choice([2, 1, -1, 0, 3])]
+            form = rng.choice(['pyf', 'nf64', 'nf32', 'af64'])
+        f = float_one({'init': list(init), 'kind': kind, 'vals': vals, 'form': form})
+        n += 1
+        if f:
+            fails.append(f)
+    return fails, n
+
+
 def oracle(rng, tier, seed, focus, cases=None):
     fails, n = [], 0
     f_sd, n_sd = slice_during_experiment(rng, tier)
     fails += f_sd
+    f_dr, st_dr = derived_experiment(rng, tier)
+    fails += f_dr
+    n_dr = st_dr
+    f_fl, n_fl = float_experiment(rng, tier)
+    fails += f_fl
+    n_near = n_typed = n_chk = 0
     for c in (cases or []):
+        if 'check' in c.meta:
+            n_chk += 1
+            r = judge_check(c.meta['check'])
+            if r:
+                fails.append(Failure(r[0], r[1], {'key': r[0], 'check': c.meta['check']}, case=c))
+            continue
+        n_near += any(len(o) > 5 and o[5] == 'near' for o in c.meta['ops'])
+        n_typed += any(len(o) > 1 and o[1] == 'ut' for o in c.meta['ops'])
         n += 1
         init, ops = tuple(c.meta['init']), [tuple(o) for o in c.meta['ops']]
         r = judge(init, ops)
@@ -626,7 +1265,8 @@ def oracle(rng, tier, seed, focus, cases=None):
             fails.append(Failure(key, what, {'key': key, 'init': list(init), 'ops': [list(o) for o in ops[:i]]}, case=c))
     cur = sum(1 for c in (cases or []) if c.model and norm_outcomes(c.impl) == norm_outcomes(c.model.split(' ## ')[-1]))
     fix = sum(1 for c in (cases or []) if c.model and cmp_fixed(c.impl, c.model))
-    return fails, {'slice_during_experiments': n_sd, 'judged': n, 'failed': len(fails), 'distinct_keys': len({f.key for f in fails}), 'focus': len(focus),
+    return fails, {'slice_during_experiments': n_sd, 'derived_object_experiments': n_dr, 'float_operand_experiments': n_fl,
+                   'check_cases': n_chk, 'histories_with_near_uniform_operand': n_near, 'histories_with_typed_operand': n_typed, 'judged': n, 'failed': len(fails), 'distinct_keys': len({f.key for f in fails}), 'focus': len(focus),
                    'histories_matching_repaired_model': fix, 'histories_matching_unrepaired_model': cur}
 
 
@@ -636,6 +1276,13 @@ def replay(d):
     import common
     if 'slice_during' in d:
         return slice_during_one(d['slice_during'])
+    if 'derived' in d:
+        return derived_one(d['derived'])
+    if 'float' in d:
+        return float_one(d['float'])
+    if 'check' in d:
+        r = judge_check(d['check'])
+        return Failure(r[0], r[1], d) if r else None
     init = tuple(d['init'])
     ops = [tuple(o) for o in d['ops']]
     r = judge(init, ops)
